@@ -9,6 +9,7 @@ Case kinds
            in the thorough tier), light-weight
   fl       one float operation on the hardware vs. the model
 """
+import copy
 import json
 import math
 import re
@@ -531,7 +532,7 @@ class C13(Prop):
 
         try:
             e = Event(id=case["id"], timestamp=self._ts_input(case), duration=dur_value(case["dur"]),
-                      data=case["data"])
+                      data=copy.deepcopy(case["data"]))
         except Exception as ex:  # the real code raised: an outcome, judged by the oracle
             return ["err", ek(ex)]
         ts = e.timestamp
@@ -566,6 +567,22 @@ class C13(Prop):
                 out[name] = ["R", ev4(e2), bool(e2 == e) and bool(e == e2), e2.id == e.id and type(e2.id) is type(e.id)]
             except Exception as ex:
                 out[name] = ["E", ek(ex)]
+        # the JSON form is the form of the event as it is NOW: change the event (its data in place, as the transforms do;
+        # through dict.update; through a setter) and serialise again - rebuilding must give the changed event
+        changes = []
+        for how in ("data-in-place", "update", "setter"):
+            try:
+                if how == "data-in-place":
+                    e.data["verif_added"] = [how]
+                elif how == "update":
+                    e.update({"data": {"verif_replaced": 1}})
+                else:
+                    e.duration = e.duration + timedelta(seconds=1)
+                e3 = Event(**json.loads(e.to_json_str()))
+                changes.append(bool(e3 == e) and ev4(e3) == ev4(e) and json.loads(json.dumps(e.to_json_dict())) == json.loads(e.to_json_str()))
+            except Exception as ex:
+                changes.append("E:" + ek(ex))
+        out["after_change"] = changes
         return out
 
     def _impl_fl(self, case):
@@ -677,6 +694,8 @@ class C13(Prop):
     def same(self, case, impl_out, model_out):
         if case["k"] == "fl" and impl_out == ["range"]:
             return True  # result outside the normal range of the model: not compared
+        if isinstance(impl_out, dict) and "after_change" in impl_out:
+            impl_out = {k: v for k, v in impl_out.items() if k != "after_change"}  # judged by the oracle only
         return impl_out == model_out
 
     # ---- the property, stated directly --------------------------------------------------------------
@@ -735,6 +754,8 @@ class C13(Prop):
             return "to_json_str differs from to_json_dict"
         # 4. rebuilding
         small = abs(du) <= D43
+        if small and abs(du + M) <= D43 and any(c is not True for c in out.get("after_change", [])):
+            return f"after the event was changed (data in place / update / setter) its JSON form does not rebuild it: {out['after_change']}"
         for name in ("rt", "copy"):
             r = out[name]
             if name == "rt" and not small:
